@@ -35,6 +35,7 @@ MUTATING = {"mkdir", "open_w", "write", "close_w", "rename", "unlink", "rmdir"}
 CAN_RAISE = MUTATING | {"listdir", "open_r"}
 SAVER_FUNCS = {"FileSaver.__init__", "FileSaver._flush_metadata", "FileSaver._close", "FileSaver._save_chunk_metadata",
                "save_file", "_save_file", "FileSaver._save_chunk"}
+WRITER_FUNCS = {"save_file", "_save_file"}          # strax.save_file: the chunk write (possibly on a pool thread)
 
 
 class InjectedIOError(OSError):
@@ -131,10 +132,8 @@ class FaultFS:
             g = op.fname2 or ""
             if op.func not in SAVER_FUNCS:
                 op.role = "R"
-            elif f.startswith(("chunk:", "tmp:")):
+            elif op.func in WRITER_FUNCS and f.startswith(("chunk:", "tmp:")):
                 op.role = "W" + f.split(":")[1]
-            elif g.startswith(("chunk:", "tmp:")):
-                op.role = "W" + g.split(":")[1]
             else:
                 op.role = "S"
             ck = (op.key, op.role)
